@@ -117,6 +117,10 @@ def cases(draw, tier):
                      draw(st.sampled_from([-4.25, -5., -3.75]))],
             # the grid is moved / rescaled in place, and a clone of it is
             # relocated, between two queries
+            "cont": [draw(st.sampled_from(["f64", "f64", "strided", "f32",
+                                           "int"])),
+                     draw(st.sampled_from(["f64", "f64", "strided", "f32",
+                                           "int"]))],
             "regeo": [draw(st.sampled_from([0., 1., -2.5, 0.75])),
                       draw(st.sampled_from([0., -1., 3.25, 0.5])),
                       draw(st.sampled_from([1., 1., 2., 0.5]))]}
@@ -125,10 +129,29 @@ def cases(draw, tier):
 OPTS = {}
 
 
+CONT = {"pts": "f64", "poly": "f64"}
+
+
+def as_container(a, how):
+    """The same coordinates as a row-strided view, float32 or integer array
+    (only when that represents them exactly)."""
+    a = np.ascontiguousarray(a, dtype=np.float64)
+    if how == "strided" and len(a):
+        big = np.zeros((2 * len(a), 2))
+        big[::2] = a
+        return big[::2]
+    if how == "f32" and np.array_equal(a, a.astype(np.float32)):
+        return a.astype(np.float32)
+    if how == "int" and np.array_equal(a, np.round(a)) \
+            and np.all(np.abs(a) < 2**40):
+        return a.astype(np.int64)
+    return a
+
+
 def call(pts, poly):
     return gutils.points_inside_polygon(
-        np.ascontiguousarray(pts, dtype=np.float64),
-        np.ascontiguousarray(poly, dtype=np.float64), **OPTS).astype(bool)
+        as_container(pts, CONT["pts"]), as_container(poly, CONT["poly"]),
+        **OPTS).astype(bool)
 
 
 def oracle(case):
@@ -142,6 +165,8 @@ def oracle(case):
     # options that do not change the rule away from the boundary
     OPTS.clear()
     OPTS.update(case.get("opts", {}))
+    CONT["pts"], CONT["poly"] = case.get("cont", ["f64", "f64"])
+    labels.append(f"containers:{CONT['pts']}/{CONT['poly']}")
     if OPTS:
         labels.append("options:" + ",".join(sorted(OPTS)))
     if case["close"]:
